@@ -53,11 +53,14 @@ type scen struct {
 	B     uint64 `json:"boundary"`
 	Progs [][]op `json:"progs"`
 	Bound int    `json:"bound"` // preemption bound, -1 = all interleavings (keyed)
-	arr   *sb.BucketLeapArray
-	ops   [][]op // per execution copy
-	seq   int
-	prec  uint64 // bit (a*8+b): op a finished before op b started (global op index)
-	roll  [4]struct {
+	// Gap: the array was idle for one more full interval before the boundary, so EVERY slot is expired
+	// and callers in different buckets roll different slots over at the same time
+	Gap  bool `json:"idle_gap,omitempty"`
+	arr  *sb.BucketLeapArray
+	ops  [][]op // per execution copy
+	seq  int
+	prec uint64 // bit (a*8+b): op a finished before op b started (global op index)
+	roll [4]struct {
 		thread int
 		start  uint64
 		active bool
@@ -70,7 +73,11 @@ type scen struct {
 
 func (s *scen) name() string {
 	b, _ := json.Marshal(s.Progs)
-	return fmt.Sprintf("N=%d bl=%d B=%d %s", s.N, s.BL, s.B, b)
+	g := ""
+	if s.Gap {
+		g = " idle-gap"
+	}
+	return fmt.Sprintf("N=%d bl=%d B=%d%s %s", s.N, s.BL, s.B, g, b)
 }
 
 func (s *scen) interval() uint64       { return uint64(s.N) * uint64(s.BL) }
@@ -84,14 +91,20 @@ func (s *scen) inWindow(bs, t uint64) bool {
 	return bs >= lo && bs <= cur
 }
 
-func (s *scen) staleStart(j int) uint64 { return s.B - s.interval() + uint64(j)*uint64(s.BL) }
-func (s *scen) staleAmt(j int) int64    { return 1 << (3 * uint(j)) }
+func (s *scen) staleStart(j int) uint64 {
+	st := s.B - s.interval() + uint64(j)*uint64(s.BL)
+	if s.Gap {
+		st -= s.interval()
+	}
+	return st
+}
+func (s *scen) staleAmt(j int) int64 { return 1 << (3 * uint(j)) }
 
 func (s *scen) setup() {
 	env.Install()
 	vsched.AfterOp = nil
 	// build the array two cycles before the boundary, then fill the N buckets preceding B
-	env.Clock.SetMs(int64(s.B - 2*s.interval()))
+	env.Clock.SetMs(int64(s.B - 3*s.interval()))
 	s.arr = sb.NewBucketLeapArray(s.N, uint32(s.interval()))
 	for j := 0; j < int(s.N); j++ {
 		s.arr.VerifAddCountWithTime(s.staleStart(j), cb.MetricEventPass, s.staleAmt(j))
@@ -523,6 +536,23 @@ func scenarios(c *props.Ctx) []*scen {
 					continue
 				}
 				out = append(out, &scen{N: g.N, BL: g.BL, B: g.B, Progs: [][]op{p2[i], p2[j]}, Bound: -1})
+			}
+		}
+		// class A with an idle gap (more than one bucket): both timestamps need a rollover, of different slots
+		// (one operation per thread at all interleavings; a two-operation thread against a one-operation thread
+		// with at most two preemptions: two concurrent rollovers make the full space much larger)
+		for i := 0; i < len(p1) && g.N > 1; i++ {
+			for j := i; j < len(p1); j++ {
+				if hasAdd(p1[i]) || hasAdd(p1[j]) {
+					out = append(out, &scen{N: g.N, BL: g.BL, B: g.B, Progs: [][]op{p1[i], p1[j]}, Bound: -1, Gap: true})
+				}
+			}
+		}
+		for i := 0; i < len(p2) && g.N > 1; i++ {
+			for j := 0; j < len(p1) && len(p2[i]) == 2; j++ {
+				if hasAdd(p2[i]) || hasAdd(p1[j]) {
+					out = append(out, &scen{N: g.N, BL: g.BL, B: g.B, Progs: [][]op{p2[i], p1[j]}, Bound: 2, Gap: true})
+				}
 			}
 		}
 		// class A': a non-refreshing conditional reader against every two-op program, and on its own
